@@ -107,6 +107,10 @@ func keyMutations() []mutation {
 			e[rapid.SampledFrom([]string{"controller", "extra", "publicKeyMultibase", "publicKeyPem", "Id"}).Draw(t, "extraMember")] = "x"
 		}},
 		mutation{"key-purposes-empty", func(t *rapid.T, e map[string]interface{}, _ *[]interface{}) { e["purposes"] = []interface{}{} }},
+		mutation{"key-purposes-not-a-list", func(t *rapid.T, e map[string]interface{}, _ *[]interface{}) {
+			// a purposes member that is present is a list of purposes: a single purpose as a string, an object, a number ... is not
+			e["purposes"] = rapid.SampledFrom([]interface{}{pAuth, pAgree, map[string]interface{}{"0": pAuth}, float64(1), true, "", nil}).Draw(t, "purposesValue")
+		}},
 		mutation{"key-purpose-unknown", func(t *rapid.T, e map[string]interface{}, _ *[]interface{}) {
 			ps, _ := e["purposes"].([]interface{})
 			bad := rapid.SampledFrom([]string{"signing", "", "Authentication", "verificationMethod", "keyagreement"}).Draw(t, "badPurpose")
